@@ -45,6 +45,7 @@ pub fn property() -> Property {
         jobs.push(
             job(label, q, t, { let pc = pc.clone(); move || plan_strategy(&pc) }, move |p: &Plan, st: &mut Stats| check_model::<SOrswot>(p, &ctx, st, &add_wins_situation::<SOrswot>, "Orswot read differs from the observed-remove/add-wins specification"))
                 .decoder({ let pc = pc.clone(); move |d: &[u8]| decode_plan(&pc, d) })
+            .encoder({ let pc = pc.clone(); move |t: &Plan| encode_plan(&pc, t) })
             .floor("nontrivial", 0.03)
                 .boxed(),
         );
